@@ -983,11 +983,15 @@ def parse_tree_to_objgraph(
 
         if is_main_model:
             models = get_included_models(model)
+            parsers = []
             try:
                 # filter out all models w/o resolver:
                 models = list(
                     filter(lambda x: hasattr(x, "_tx_reference_resolver"), models)
                 )
+                # (a model object of a user class with __slots__ keeps its
+                # parser only as long as it is in construction)
+                parsers = [m._tx_parser for m in models]
 
                 resolved_count = 1
                 unresolved_count = 1
@@ -1046,8 +1050,8 @@ def parse_tree_to_objgraph(
                 remove_models_from_repositories(models, models)
                 # ... and do not leave user classes instrumented on behalf of
                 # models whose construction will never be finished
-                for m in models:
-                    m._tx_parser._restore_user_attr_methods()
+                for p in parsers:
+                    p._restore_user_attr_methods()
                 raise
 
         if metamodel.textx_tools_support and type(model) not in PRIMITIVE_PYTHON_TYPES:
